@@ -139,6 +139,9 @@ def run(ctx, tier):
     if pre and not late:
         results.append(ok(rule, 'no growth of the new file follows its image write before the lock', sites=len(pre)))
     results += c06.open_existing(ctx, rule='C13.open-existing')
+    # the opener that waited gets in: open refuses nothing the pinned tree does not refuse (a file length that is no multiple of the page size ...)
+    import c15
+    results += c15.open_refusals(ctx, rule='C13.open-refusals')
     # ---- observe-after-lock: what open learns about the file (its length, its bytes) must be learnt while the lock is held
     rule = 'C13.observe-after-lock'
     Os = [e for e in T.events('O') if not e.get('summary')]
